@@ -2,6 +2,7 @@ package main
 
 import (
 	"fmt"
+	"go/token"
 	"go/types"
 	"os"
 	"strings"
@@ -338,6 +339,47 @@ func checkNames(p *Program, r *Report) {
 			}
 		}
 		r.floor("DT-NAMECHECK", n, 2, "nil returns of the name check (skipped and validated)")
+		// NAMECHECK-STATELESS: the verdict on a transaction depends on its records and
+		// on the current view only: the check writes nothing on the handle that a later
+		// check could read (a cache of names that "already passed" outlives deletions,
+		// aborted transactions and other handles' commits)
+		cg := buildCallGraph(p)
+		reach := cg.reachable([]*ssa.Function{chk})
+		stackT := p.namedType("Stack")
+		bad := ""
+		var badPos token.Pos
+		for f := range reach {
+			for _, b := range f.Blocks {
+				for _, ins := range b.Instrs {
+					var base ssa.Value
+					switch v := ins.(type) {
+					case *ssa.Store:
+						if fa, ok := v.Addr.(*ssa.FieldAddr); ok {
+							base = fa.X
+						}
+					case *ssa.MapUpdate:
+						if ld, ok := v.Map.(*ssa.UnOp); ok {
+							if fa, ok := ld.X.(*ssa.FieldAddr); ok {
+								base = fa.X
+							}
+						}
+					}
+					if base == nil {
+						continue
+					}
+					if pt, ok := base.Type().Underlying().(*types.Pointer); ok && types.Identical(pt.Elem(), stackT) {
+						bad = funcKey(f)
+						badPos = ins.Pos()
+					}
+				}
+			}
+		}
+		key := fk + " / the name check keeps no state on the handle"
+		if bad != "" {
+			r.violate("NAMECHECK-STATELESS", key, p.pos(badPos), "the name check (through "+bad+") writes a field of the Stack handle: what a later transaction is checked against then depends on earlier checks (aborted transactions, names deleted since, other handles' commits), not only on the live refs", nil)
+		} else {
+			r.ok("NAMECHECK-STATELESS", key, fmt.Sprintf("no store to a Stack field in the %d functions the name check reaches", len(reach)))
+		}
 	}
 }
 
